@@ -118,16 +118,14 @@ def phase_mc(c, tier, g):
     jobs = [("MC_LightClient_p4.cfg", PROOF_INV), ("MC_LightClient_s5.cfg", ["SamplingOK", "NoPanic"])] if quick else \
            [("MC_LightClient_p5.cfg", PROOF_INV), ("MC_LightClient_p5s.cfg", PROOF_INV), ("MC_LightClient_s6.cfg", ["SamplingOK", "NoPanic"])]
     with cf.ThreadPoolExecutor(max_workers=3) as ex:
-        # quick: no per-action coverage (it costs 5x); the state counts are the vacuity guard there
-        ress = list(ex.map(lambda j: V.tlc(PID, "MC_LightClient", j[0], workers=3 if quick else 4, timeout=1700, xmx="5g", coverage=not quick), jobs))
+        # no per-action coverage statistics (they cost 5x here): the state counts and the reachability probes are the vacuity guards
+        ress = list(ex.map(lambda j: V.tlc(PID, "MC_LightClient", j[0], workers=3 if quick else 4, timeout=1700, xmx="5g", coverage=False), jobs))
     g["mc"] = []
     for (cfg, _), res in zip(jobs, ress):
         if res["violated"]:
             c.violation("growth-lightclient/model/" + res["violated"], "MC_LightClient violates %s in %s" % (res["violated"], cfg),
                         {"kind": "growth_lightclient_model", "cfg": cfg, "tlc_tail": res["out"][-3000:]})
-        if not quick:
-            V.require_coverage(res, ["MCNext"], cfg)
-        elif res["distinct"] < 60:
+        if res["distinct"] < (60 if "_s" in cfg else 1500):
             raise V.ToolError("vacuous model run (%s): %d states" % (cfg, res["distinct"]))
         c.add_tlc(res, "growth:" + cfg)
         g["mc"].append({"cfg": cfg, "distinct": res["distinct"], "generated": res["generated"], "wall_s": res["wall_s"]})
